@@ -24,7 +24,7 @@ def oracle(scores, iters, minimize, early, mult):
 def run(ck):
     from harness import xr
     ck.rule = ('the REAL RFM.fit loop driven with a scripted score per validation call and tagged stubs for solve / AGOP update; '
-               'exhaustive over a score alphabet x iteration budgets x {min,max} x early stopping x multipliers, plus random binary64 histories '
+               'exhaustive over a score alphabet x iteration budgets x {min,max} x early stopping x multipliers x {metric given to the constructor, overridden at fit time by one of either direction}, plus random binary64 histories '
                'with ties and plateaus; the observed (coefficient tag, M tag, sqrtM tag, bandwidth tag, best_iter, #evaluations) are compared '
                'with the Coq model evaluated on binary64 floats (vm_compute) and with a direct oracle of the statement; '
                'non-trivial = history with >= 2 distinct scores; distinct by hash of the full configuration')
@@ -65,8 +65,9 @@ def run(ck):
     meta = {}
     for k, c in enumerate(configs):
         metric = 'mse' if c['minimize'] else 'accuracy'
+        c['ctor_metric'] = [None, 'mse', 'accuracy', 'auc', 'mae'][k % 5]     # None: metric given to the constructor only
         o = sc.run_real_fit(xr, c['iters'], c['arg'], c['scores'], metric, c['early'], c['mult'], c['rb'],
-                            ctor_iters=c['iters'])
+                            ctor_iters=c['iters'], ctor_metric=c['ctor_metric'])
         ck.case(dict(c, observed={a: b for a, b in o.items()}), nontrivial=len(set(c['scores'])) >= 2, sample=(k % 997 == 5))
         ck.count(f"iters={c['iters']}"); ck.count('early' if c['early'] else 'no-early'); ck.count('min' if c['minimize'] else 'max')
         if o['crashed'] is not None:
